@@ -154,8 +154,8 @@ def shedder(ctx):
     freesim = script((ANY, [0, 1, 6, 9, 125 * MS, S - 100, S, S + 100]))
     # sub-millisecond / fractional-millisecond latencies with many passes per bucket: the capacity from the true
     # latencies is several requests, the capacity from latencies rounded down to whole milliseconds is smaller
-    subms = script((["burstL"], [0]), (["passn"], [1, 2, 6, 7, 9]), (["burstL"], [0]), (["passn"], [2, 6, 7, 9]),
-                   (["burstL"], [0]), (["passn"], [6, 7, 9]), (["burstS"], [100 * MS, 150 * MS]),
+    subms = script((["burstL"], [0]), (["passn"], [1, 7]), (["burstL"], [0]), (["passn"], [7, 9]),
+                   (["burstL"], [0]), (["passn"], [6, 7]), (["burstS"], [100 * MS, 150 * MS]),
                    (["allowHot", "burstS"], [0]), (["allowHot"], [0]), (["allowHot"], [0]))
     if ctx.quick:
         cool = script((["burstL"], [0]), (["fail", "passn"], [0, 125 * MS]), (["allowHot"], [0, 125 * MS, S]),
